@@ -68,6 +68,18 @@ CHECKS = {
             '(same identifier and same Python variable), same answer from every member (partition), Script.rename output vs the Coq splice model on the real leaves, rename back = original bytes, old and renamed program executed (same trace). '
             'Deviations are accepted only under three model-computed classifiers (identifier outside the C03 fragment, late-bound use, rebound parameter).',
             'Coq kernel + vm_compute; single-module programs only (cross-module discovery and file renames are covered by C07\'s streams, not modelled here); the scope-tree printer is harness code.'),
+    'C11': ('Coq proof that calculate_index is the preferred binding target of a relational model of Python argument binding; kinds, to_string round trip, docstring assembly + vm_compute correspondence with get_signatures and inspect',
+            'Theorems (15, closed): get_kind equals the kind Python assigns for every valid parameter list without __ names (refutation for the __x convention); re-reading the / and * markers of to_string recovers names and kinds and the rendering is grammatical; '
+            'calc_index = preferred target for well-formed signatures and star-free argument prefixes, sound and complete w.r.t. a Python-faithful relational Target (refutation: rebinding into **kw where Python raises); starred prefixes: partial statements and a refutation; docstring assembly. '
+            'Tied to /repo per run: all parameter lists over five kinds x default/annotation up to 4 parameters x call prefixes with the cursor in every slot x {function, method, classmethod, staticmethod, class, pass-through wrapper}: '
+            'Signature.index/.bracket_start/.params/.to_string() and the captured scanner output vs the model in Coq (~23k cases) and vs inspect.signature, real calls of a probe function (binds iff no TypeError), inspect.getdoc, ast re-parsing.',
+            'Coq kernel + vm_compute; call detection in broken code and process_params for wrappers are oracle-only (partial there).'),
+    'C14': ('Coq proof over all fault schedules of the request/reply protocol state machine with crash points + vm_compute correspondence through a fault-injecting proxy helper',
+            'Theorems (9, closed; being updated for fix 4cbf54d): for every fault schedule and every op list — at most one helper death per op, a death fails exactly that op with InternalError, a stale Script fails with InternalError and no new death, a raising helper function is relayed and is not a crash; '
+            'any op on a non-stale Script that meets no fault returns the fault-free answer; a Script created after a crash gets a live helper of the next generation; helpers are started only to replace dead ones; helper-side states = queued deletions + live used ids (no leak, even with id re-use); '
+            'every observed death went through cleanup (no zombies, pipes closed); refutation for the pre-fix truncated-reply handling. Tied to /repo per run with no source hook: the Environment\'s executable is harness/c14_proxy.py, which relays the real helper\'s pipes frame by frame and '
+            'injects the scheduled fault (kill before/after relaying, truncated reply, at every request index of several scenarios, up to 3 consecutive crashes, create/drop cycles); the Gallina check_case must reproduce every per-op observation and the whole wire log.',
+            'Coq kernel + vm_compute; asynchronous exceptions inside _send and OS-level pipe behaviour are outside the model; hang detection is a watchdog.'),
 }
 
 NOT_YET = {
